@@ -588,14 +588,14 @@ async fn directed(inst: &mut Inst, out: &mut Out, which: u64) {
             l_delref(inst, &mut scn, 0, 1).await; // no edge left: nothing is marked at all
             do_check(inst, &mut scn).await;
         }
-        2 => { // K1c: tombstone naming another version of the row
-            s_nodes(inst, &mut scn, 0, vec![(None, 1, d(0, 5000))]).await;
-            do_compute(inst, &mut scn).await;
+        2 => { // K1c: tombstone naming an older version of the row (the version moved by a covered local update)
+            l_create(inst, &mut scn, 1, Some(0), false).await;
+            let v0 = scn.nodes[0].mdate;
             tick(&mut scn, d(1, 10));
-            s_nodes(inst, &mut scn, 0, vec![(Some(0), 1, d(1, 5))]).await; // (also K1a)
-            do_compute(inst, &mut scn).await;
+            l_update(inst, &mut scn, 0, 1, None, false).await;
+            do_check(inst, &mut scn).await;
             tick(&mut scn, d(3, 10));
-            s_delnodes(inst, &mut scn, 0, vec![(0, 1, d(0, 5000), d(2, 77))]).await; // tombstone of the day-0 version deletes the day-1 row
+            s_delnodes(inst, &mut scn, 0, vec![(0, 1, v0, d(2, 77))]).await; // deletes the day-1 row, marks day 0 and day 2
             do_compute(inst, &mut scn).await; do_check(inst, &mut scn).await;
         }
         3 => { // K2: same three rows, one pass (canonical) ...
@@ -623,6 +623,22 @@ async fn directed(inst: &mut Inst, out: &mut Out, which: u64) {
             tick(&mut scn, d(2, 0));
             l_delnode(inst, &mut scn, 1).await;
             l_update(inst, &mut scn, 1, 2, None, false).await; // deleted row: refused
+            do_check(inst, &mut scn).await;
+        }
+        6 => { // edges: reference added, removed by a peer's edge tombstone, added again, removed locally the same day (covered)
+            l_create(inst, &mut scn, 1, Some(0), false).await;
+            l_create(inst, &mut scn, 1, Some(0), false).await;
+            l_addref(inst, &mut scn, 0, 1).await;
+            l_addref(inst, &mut scn, 0, 1).await; // already there: only spurious marks
+            let e = scn.edges[0];
+            let dd = scn.now - 3;
+            s_deledges(inst, &mut scn, 0, vec![(0, 1, e.2, dd)]).await;
+            do_compute(inst, &mut scn).await; do_check(inst, &mut scn).await;
+            tick(&mut scn, d(1, 10));
+            l_update(inst, &mut scn, 0, 1, None, false).await;
+            l_addref(inst, &mut scn, 0, 1).await;
+            tick(&mut scn, d(1, 500));
+            l_delref(inst, &mut scn, 0, 1).await;
             do_check(inst, &mut scn).await;
         }
         _ => {}
@@ -692,15 +708,15 @@ async fn random_case(inst: &mut Inst, out: &mut Out, rng: &mut Rng, case_no: u64
                 let r = if clean { sh.room.unwrap_or(room) } else { room };
                 s_delnodes(inst, &mut scn, r, vec![(ni, ent, md, del)]).await;
             }
-            74..=79 if persons.len() >= 2 => { let s = *rng.pick(&persons); let d = *rng.pick(&persons); l_addref(inst, &mut scn, s, d).await; }
-            80..=86 if persons.len() >= 2 => {
+            74..=81 if persons.len() >= 2 => { let s = *rng.pick(&persons); let d = *rng.pick(&persons); l_addref(inst, &mut scn, s, d).await; }
+            82..=88 if persons.len() >= 2 => {
                 let (s, d) = if !scn.edges.is_empty() && rng.chance(3, 4) { let e = *rng.pick(&scn.edges); (scn.nodes.iter().position(|n| n.idx == e.0).unwrap(), scn.nodes.iter().position(|n| n.idx == e.1).unwrap()) }
                              else { (*rng.pick(&persons), *rng.pick(&persons)) };
                 let has_edge = scn.edges.iter().any(|e| e.0 == scn.nodes[s].idx && e.1 == scn.nodes[d].idx);
                 let covered = scn.nodes[s].room.is_none() || (has_edge && scn.nodes[s].mdate.div_euclid(DAY) == scn.now.div_euclid(DAY));
                 if !clean || covered { l_delref(inst, &mut scn, s, d).await; }
             }
-            87..=89 if !scn.edges.is_empty() => {
+            89..=92 if !scn.edges.is_empty() => {
                 let e = *rng.pick(&scn.edges);
                 let s = scn.nodes.iter().position(|n| n.idx == e.0).unwrap();
                 let d = scn.nodes.iter().position(|n| n.idx == e.1).unwrap();
@@ -722,8 +738,8 @@ async fn main() {
     let mut rng = Rng::from_env();
     let mut inst = Inst::start(&format!("inst{}", seed())).await;
     let only: Option<u64> = std::env::var("VERIF_ONLY").ok().and_then(|s| s.parse().ok());
-    for w in 0..6 { if only.is_none() || only == Some(w) { directed(&mut inst, &mut out, w).await; } }
-    let n = if only.is_some() { 0 } else { scale(110, 900) };
+    for w in 0..7 { if only.is_none() || only == Some(w) { directed(&mut inst, &mut out, w).await; } }
+    let n = if only.is_some() { 0 } else { scale(150, 1500) };
     for i in 0..n {
         let mut r = rng.fork();
         random_case(&mut inst, &mut out, &mut r, i as u64).await;
